@@ -147,6 +147,6 @@ Definition closed (h : heap) (D : list loc) : Prop :=
 Definition step_ok (h : heap) (D : list loc) (l : loc) (c : cell) : Prop :=
   (In l D \/ ~ In l (keys h)) /\ forall r, In r (refs_cell c) -> In r D \/ r = l.
 
-(* the runtime record of a copy: every field renamed *)
+(* the runtime record of a copy: every heap reference renamed, the host settings as they were *)
 Definition rename_rt (f : loc -> loc) (rt : runtime) : runtime :=
-  mkRt (f (rt_global rt)) (map f (rt_fields rt)) (f (rt_eval rt)).
+  mkRt (f (rt_global rt)) (map f (rt_fields rt)) (f (rt_eval rt)) (rt_cfg rt).
